@@ -17,16 +17,24 @@ class _PersistentWiring:
     """Persist the wiring of a logic convolution (kernel pairs and the index tensors derived
     from them) in the state dict: it is part of the function the layer computes."""
 
+    def _geometry(self):
+        rf = self.receptive_field_size
+        return {
+            "in_dim": tuple(int(n) for n in self.in_dim), "channels": int(self.channels), "num_kernels": int(self.num_kernels),
+            "tree_depth": int(self.tree_depth), "stride": int(self.stride), "padding": int(self.padding or 0),
+            "receptive_field_size": tuple(int(r) for r in rf) if isinstance(rf, (tuple, list)) else int(rf),
+        }
+
     def get_extra_state(self):
         return {
+            "geometry": self._geometry(),
             "kernel_pairs": tuple(p.detach().cpu() for p in self.kernel_pairs),
             "indices": [tuple(i.detach().cpu() for i in level) for level in self.indices],
         }
 
     def set_extra_state(self, state):
         pairs = tuple(p.to(self.device) for p in state["kernel_pairs"])
-        # The pairs are positions inside the receptive field (+ a channel): they must fit THIS layer. The window
-        # positions are recomputed from this layer's own geometry, never taken from the checkpoint.
+        # The pairs are positions inside the receptive field (+ a channel): they must fit THIS layer.
         rf = self.receptive_field_size
         limits = (tuple(rf) if isinstance(rf, (tuple, list)) else (rf,) * len(self.in_dim)) + (self.channels,)
         fits = len(pairs) == len(self.kernel_pairs) and all(
@@ -38,8 +46,24 @@ class _PersistentWiring:
             raise ValueError(
                 "the persisted wiring does not fit this layer (receptive field, channels, kernels or tree depth differ)"
             )
-        self.kernel_pairs = pairs
-        self.indices = self.get_indices_from_kernel_pairs(pairs)
+        if "geometry" in state:
+            # written by a layer that recorded its geometry: it must be the geometry of THIS layer, and then the saved index
+            # tensors (which may have been set by hand) are the wiring to restore
+            if state["geometry"] != self._geometry():
+                raise ValueError(
+                    f"the persisted wiring belongs to a layer of another geometry ({state['geometry']}, this layer: {self._geometry()})"
+                )
+            saved = [tuple(i.to(self.device) for i in level) for level in state["indices"]]
+            if len(saved) != len(self.indices) or any(
+                len(lv) != len(own) or any(a.shape != b.shape for a, b in zip(lv, own)) for lv, own in zip(saved, self.indices)
+            ):
+                raise ValueError("the persisted index tensors do not have the shapes of this layer")
+            self.kernel_pairs = pairs
+            self.indices = saved
+        else:
+            # older checkpoints: the window positions are recomputed from this layer's own geometry
+            self.kernel_pairs = pairs
+            self.indices = self.get_indices_from_kernel_pairs(pairs)
 
     def _load_from_state_dict(self, state_dict, prefix, *args, **kwargs):
         # checkpoints written before the wiring was persisted carry no extra state: keep the current wiring
